@@ -236,7 +236,7 @@ def judge_uncontrolled(obs, d, ids, st, t, pre, out, wit):
     for s_ in ids:
         g = got.get(s_, [0.0])
         e = exp.get(s_, 0.0)
-        if len(g) != 1 or g[0] != e:
+        if len(g) < 1 or g[0] != e:
             obs.violate("uncontrolled_not_station_max", f"period {t}: station {s_}: {g} expected [{e}] (active: {s_ in exp})",
                         period=t, schedule=got, pre_state=pre, **wit)
             return
@@ -250,10 +250,11 @@ def judge_sorted(obs, d, sd, ids, A, L, ang, names, st, sess, period, t, pre, ou
         return
     obs.ev("preprocessing_observed")
     w_ = dict(wit, period=t, schedule=out, pre_state=pre, preprocessed=pp)
-    if set(out) != set(ids) or any(len(v) != 1 for v in out.values()):
+    if not set(out) <= set(ids) or any(len(v) < 1 for v in out.values()) or len({len(v) for v in out.values()}) > 1:
         obs.violate("schedule_shape", f"period {t}: {out}", **w_)
         return
-    s_out = [float(out[i][0]) for i in ids]
+    # an omitted station is a station at 0 A (C04); of a longer plan the current period's column is the allocation judged here
+    s_out = [float(out[i][0]) if i in out else 0.0 for i in ids]
     idx = {s_: k for k, s_ in enumerate(ids)}
     # sessions in the allocation, with observed own bounds and independently computed demand / keys
     q = []
